@@ -1336,6 +1336,7 @@ class BaseImage(metaclass=ImageMeta):
         # A parameter of zero is taken as one by terminals
         cursor_up = CURSOR_UP % (lines - 1) if lines > 1 else ""
         cursor_down = CURSOR_DOWN % lines
+        completed = False
 
         try:
             print(next(image_it._animator), end="", flush=True)  # First frame
@@ -1354,6 +1355,8 @@ class BaseImage(metaclass=ImageMeta):
 
                 # Render next frame during current frame's duration
                 start = time.time()
+
+            completed = True
         except KeyboardInterrupt:
             self._handle_interrupted_draw()
         except Exception:
@@ -1363,9 +1366,11 @@ class BaseImage(metaclass=ImageMeta):
             image_it.close()
             self._close_image(img)
             self._seek_position = prev_seek_pos
-            # Move the cursor to the last line of the image to prevent "overlaid"
-            # output in the terminal
-            print(cursor_down, end="")
+            # If interrupted, the cursor may be anywhere within the image; move it past
+            # the last line of the image to prevent "overlaid" output in the terminal.
+            # Otherwise, it's already on the last line.
+            if not completed:
+                print(cursor_down, end="")
 
     def _format_render(
         self,
